@@ -172,10 +172,21 @@ Theorem C05_inttype_spec : forall tg v decimal s sfx,
 Proof. exact inttype_spec. Qed.
 Print Assumptions C05_inttype_spec.
 
-Theorem C05_inttype_suffix_refuted : exists tg sfx,
-  (forall s, ~ In sfx (suffix_spellings s)) /\ inttype tg 1 true sfx = Some BLLong.
-Proof. exact inttype_suffix_refuted. Qed.
-Print Assumptions C05_inttype_suffix_refuted.
+Theorem C05_nullpointer_qualified_void : forall q w v, q <> 0 ->
+  nullpointer (mkop (TPtr TVoid q) w (Some v)) = false.
+Proof. exact nullpointer_qualified_void. Qed.
+Print Assumptions C05_nullpointer_qualified_void.
+
+Theorem C05_inttype_suffix_complete : forall tg v decimal sfx b,
+  inttype tg v decimal sfx = Some b -> exists s, In sfx (suffix_spellings s).
+Proof. exact inttype_suffix_complete. Qed.
+Print Assumptions C05_inttype_suffix_complete.
+
+Theorem C05_inttype_mixed_ll_rejected : forall tg v decimal,
+  inttype tg v decimal [108; 76] = None /\ inttype tg v decimal [76; 108] = None /\
+  inttype tg v decimal [117; 76; 108] = None /\ inttype tg v decimal [108; 76; 85] = None.
+Proof. exact inttype_mixed_ll_rejected. Qed.
+Print Assumptions C05_inttype_mixed_ll_rejected.
 
 Theorem C05_floattype_spec : forall sfx b, In (sfx, b) float_suffixes -> floattype sfx = Some b.
 Proof. exact floattype_spec. Qed.
